@@ -1,7 +1,7 @@
 SPEC = dict(
     id="C23",
-    level_text="Lean 4 theorems over the shared ClusterFSM model (Arc.Model.C22). Clause 4 at full strength: C23_rbac_parents / C23_rbac_cascade_index_complete — in EVERY reachable state (any commands incl. invalid/duplicate/out-of-order at any log indexes, snapshot+restore anywhere) every team/role/measurement permission/membership has its parents and is listed in the index its parent's cascade walks (invariant PInv through the three nested cascades; Restore re-establishes it for any snapshot). Clauses 1-3 are FALSE of the real FSM: witness theorems (C23_one_primary_witness, C23_primary_exists_witness_promote_unknown/_remove_primary/_rejoin, C23_reregister_witness) are replayed on the real code by the harness monitors, and C23_one_primary_partial, C23_primary_exists_partial, C23_marked_is_recorded_partial, C23_reregister_partial hold for every history inside the decidable carve-out roleSafe; C23_repaired_roles_full / C23_repaired_reregister_full show the proposed patch removes the carve-out (model of the patched functions, not tied to source). C23_model_quirks_tied re-proves from regenerated source facts that the model encodes the current shapes of applyAddNode/applyUpdateNode/applyPromoteWriter/applyRemoveNode/handleJoinRequest. The model is diffed line by line against the real FSM on all sequences up to the bound over a 15-letter node alphabet and a 12-letter RBAC alphabet (also after a hierarchy-building prefix) plus directed and random histories.",
-    level_note="known findings: keys one-primary:node-payload, primary-exists:promote-unknown, primary-exists:remove-primary, primary-exists:record-replaced, reregister:role-changed",
+    level_text="Lean 4 theorems over the shared model of the CURRENT ClusterFSM (Arc.Model.C22), all at full strength for EVERY history (any commands incl. invalid/duplicate/out-of-order at any log indexes, snapshot+restore anywhere): C23_one_primary (at most one node marked primary), C23_primary_exists (a non-empty primaryWriterID names an existing node marked primary), C23_marked_is_recorded, C23_reregister (AddNode/UpdateNode of an existing id keeps the recorded writer_state whatever the payload says and touches nothing else), C23_rbac_parents / C23_rbac_cascade_index_complete (every team/role/measurement permission/membership has its parents and is listed in the index its parent's cascade walks; invariant PInv through the three nested cascades; Restore re-establishes it for any snapshot). C23_model_quirks_tied re-proves from regenerated source facts that AddNode/UpdateNode keep the recorded writer state, PromoteWriter validates before mutating and RemoveNode clears primaryWriterID. C23_prefix_*_witness keep the pre-fix counterexamples as statements about explicitly named pre-fix functions. The model is diffed line by line against the real FSM on all sequences up to the bound over a 15-letter node alphabet and a 12-letter RBAC alphabet (also after a hierarchy-building prefix) plus directed and random histories; all role and RBAC-orphan monitors are live and silent.",
+    level_note="no known findings on the current tree (the five pre-fix keys no longer fire)",
     technique="Lean 4 invariant proof (RoleInv) by induction over histories with restores; witness theorems by evaluation; regenerated source-shape facts; differential correspondence on the real FSM",
     factgen=True,
     hooks={"internal/cluster/raft": "go/hooks/raft"},
